@@ -19,6 +19,21 @@ def main(tier):
     # crashes at quiescent points (completed writes kept): a recipient whose mark was written must not be attempted again
     res.merge(histrun.run(PROP, b, core.scaled(500 if quick else 4000), dict(base, p_crash=0.15, conc=[1, 2, 5], spawn=[3, 120]),
                           ORACLES, salt="ck"))
+    # saturation: one or two messages with more recipients on one channel than min(configured, announced), around the
+    # values where a one-byte limit or delivery number changes sign or wraps (DESIGN.md 7.7, seed c04-s3): the random
+    # histories above have at most ~28 pending recipients and exercise only small bounds
+    pairs = [(5, 3), (3, 5), (130, 127), (127, 130), (140, 128), (200, 129), (255, 200), (255, 255), (250, 254), (300, 255), (300, 120), (1, 255)]
+    if quick:
+        pairs = [pairs[i] for i in (1, 2, 4, 6, 9)] + [pairs[(core.seed() * 3 + j) % len(pairs)] for j in range(2)]
+    for j, (cf, an) in enumerate(pairs):
+        n = min(cf, an) + 3
+        for dom in ([b"local.test"], [b"remote.test"]) if (not quick or j % 2 == 0) else ([b"remote.test"],):
+            sat = dict(base, conc=[cf], spawn=[an], min_rcpts=n, max_rcpts=n + 2, rcpt_doms=dom, max_msgs=2, dup_rcpt=0.0,
+                       report_burst=max(4, n // 3), max_quiescent=2500, hold_reports=0.3, p_term_restart=0.03, senders=["user"],
+                       p_garbage=0.0)
+            r = histrun.run(PROP, b, 1 if quick else 3, sat, ORACLES, salt="sat%d%s" % (j, dom[0][:1].decode()))
+            r.counters.inc("saturation_histories", r.evaluations)
+            res.merge(r)
     # crash sweep at call granularity for fixed scenarios
     prof = {"max_msgs": 3, "p_term_restart": 0.0, "max_rcpts": 4, "dup_rcpt": 0.3}
     for idx in histrun.pick_scenarios(PROP, b, "sw", prof, 2 if quick else 6):
@@ -46,7 +61,8 @@ def main(tier):
             "fixed scenario, completed writes kept). Oracle per command: no command for a record already reported K/D (after a crash: "
             "unless its mark write had not completed), never two outstanding for one record, delivery number not in use, outstanding "
             "<= min(control value, spawner byte), nothing after TERM, no exit with deliveries outstanding; without crashes exactly one K "
-            "per delivered recipient. Non-trivial = history with at least one command; distinct by boundary-event sequence.")
+            "per delivered recipient. Saturation histories: more recipients on one channel than min(configured, announced) for pairs around "
+            "127/128/129, 200, 254/255 and 300. Non-trivial = history with at least one command; distinct by boundary-event sequence.")
     return core.finish(PROP, tier, "exploration", res, rule, t0, assumptions=[
         "the controller plays the spawners; records of one address listed twice are told apart by the daemon's pass order (class-o events)",
         "crash variant keep-all only: with un-fsynced marks lost a re-attempt is legitimate (INTERNALS.md section 6)"])
